@@ -12,6 +12,7 @@ import (
 	"go/constant"
 	"go/token"
 	"go/types"
+	"regexp"
 	"sort"
 	"strings"
 )
@@ -43,9 +44,18 @@ func (cf *mbCastFn) bindRecArgs(n *mbNorm) {
 				ts = n.str(a)
 			}
 		}
+		// the type operand: a selector path of the target type (`p:Type.Inner`)
+		// is kept; a part of the target type that is found by a search or a
+		// lookup (the declared type of the field with this name) is "a part of
+		// the target type" however it is looked up
+		if !mbPureChainRe.MatchString(ts) && strings.Contains(ts, "p:Type") {
+			ts = "⊂p:Type"
+		}
 		return vs + " as " + ts
 	}
 }
+
+var mbPureChainRe = regexp.MustCompile(`^p:[A-Za-z_.*]*Type(#\d+)?(\.[A-Za-z_]\w*|\.‹[^›]*›)*$`)
 
 func (cf *mbCastFn) normOf(st *mbCastState) *mbNorm {
 	if st != nil && st.norm != nil {
@@ -595,7 +605,14 @@ func (cf *mbCastFn) classify(st *mbCastState, r *ast.ReturnStmt, errClasses map[
 			if v := cf.eval(st, a); v != nil {
 				return "convert→" + name + "(" + v.String() + ")"
 			}
-			return "build→" + name + "(" + cf.normOf(st).str(a) + ")"
+			as := cf.normOf(st).str(a)
+			if strings.Contains(as, "rec(") {
+				// a container rebuilt from the recursively cast parts: how the parts
+				// are collected (search loop, lookup table, helper) is not part of
+				// the cell; the recursion itself is recorded by "after recurse(…)"
+				return "rebuild→" + name
+			}
+			return "build→" + name + "(" + as + ")"
 		}
 		// method constructor on the cast value (IntoAnyObject)
 		var as []string
